@@ -142,14 +142,66 @@ def _near_corner_pair(rng, prec):
     return (a1, a2), (b1, b2)
 
 
+def _r(prec, v):
+    if prec == "f32":
+        import struct
+        return struct.unpack("f", struct.pack("f", v))[0]
+    return v
+
+
+def _near_vertical_pair(rng, prec):
+    """a nearly vertical segment (x-extent of a few ulps, either sign of x) crossed by another one: the
+    division point is clamped to the left endpoint's x, below it (corner case 1 of divide_segment)"""
+    x0 = _r(prec, rng.choice([-1.0, 1.0, -3.5, 2.25, -0.0, 0.0, -1e-3, 7.0]) * rng.choice([1.0, 1.0, 0.5, 3.0]))
+    k = rng.randint(1, 3)
+    x1 = x0
+    for _ in range(k):
+        x1 = _r(prec, gen._ulps(x1, 1)) if prec == "f64" else _next32(x1)
+    h = rng.choice([2.0, 3.0, 5.0])
+    top_first = rng.random() < 0.5
+    a = ((x0, h), (x1, -h)) if top_first else ((x0, -h), (x1, h))
+    y = _r(prec, rng.uniform(-0.9, 0.9) * h)
+    b = ((_r(prec, x0 - rng.uniform(0.5, 2)), y), (_r(prec, x0 + rng.uniform(0.5, 2)), _r(prec, y + rng.uniform(-0.5, 0.5))))
+    return a, b
+
+
+def _next32(v):
+    import struct
+    if v == 0.0:
+        return struct.unpack("f", struct.pack("I", 1))[0] * 2.0 ** 100   # stay clear of subnormals
+    bits = struct.unpack("I", struct.pack("f", v))[0]
+    bits = bits + 1 if v > 0 else bits - 1
+    return struct.unpack("f", struct.pack("I", bits))[0]
+
+
+def _near_collinear_triple(rng, prec):
+    """three points that are collinear up to the rounding of their coordinates (many significant bits)"""
+    ax, ay = rng.uniform(-300, 300), rng.uniform(-300, 300)
+    dx, dy = rng.uniform(-3, 3), rng.uniform(-3, 3)
+    s, t = rng.uniform(0.1, 40), rng.uniform(-40, 40)
+    a = (_r(prec, ax), _r(prec, ay))
+    b = (_r(prec, ax + s * dx), _r(prec, ay + s * dy))
+    c = (_r(prec, ax + t * dx), _r(prec, ay + t * dy))
+    return a, b, c
+
+
 def function_cases(rng, n, prec="f64", dbg=False):
     cases = []
     per = 25
     for ci in range(max(1, n // per)):
         c = Case("fn-%s-%d%s" % (prec, ci, "-dbg" if dbg else ""), "fn")
+        if not dbg:
+            for _ in range(30):
+                a, b, cc = _near_collinear_triple(rng, prec)
+                c.run("ORIENT %s %s %s %s" % (prec, _pt(a), _pt(b), _pt(cc)))
+                c.run("ORIENT %s %s %s %s" % (prec, _pt(b), _pt(cc), _pt(a)))
+            for v in [0.0, -0.0, 1.0, -1.0, 2.0 ** rng.randint(-20, 20), -(2.0 ** rng.randint(-20, 20)), rng.uniform(-100, 100), rng.uniform(-1e-3, 1e-3)]:
+                c.run("NEXTAFTER %s %s" % (prec, num.enc(_r(prec, v))))
         for _ in range(per):
-            kind = rng.choice(["lat", "lat", "big", "float", "collinear", "collinear", "corner", "shared"])
-            if kind == "collinear":
+            kind = rng.choice(["lat", "lat", "big", "float", "collinear", "collinear", "corner", "shared", "nearvert", "nearvert"])
+            if kind == "nearvert":
+                (p1, q1), (p2, q2) = _near_vertical_pair(rng, prec)
+            elif kind == "collinear":
                 (p1, q1), (p2, q2) = _collinear_pair(rng, prec)
             elif kind == "corner":
                 (p1, q1), (p2, q2) = _near_corner_pair(rng, prec)
@@ -530,6 +582,41 @@ def c17_oracle(case):
     return out
 
 
+def function_oracle(case):
+    """independent references for the two numeric helpers: the orientation sign from exact rational
+    arithmetic, and nextafter from the IEEE-754 bit pattern"""
+    import struct
+    out = []
+    for k, req in case.reqs.items():
+        t = req.split()
+        impl = case.impl.get(k, "")
+        if t[0] == "ORIENT":
+            pts = [num.dec(v) for v in t[2:8]]
+            (ax, ay, bx, by, cx, cy) = pts
+            d = (ax - cx) * (by - cy) - (ay - cy) * (bx - cx)
+            want = "+" if d > 0 else ("-" if d < 0 else "0")
+            if impl != want:
+                out.append((k, "orientation sign is %s but the exact sign is %s" % (impl, want)))
+        elif t[0] == "NEXTAFTER" and impl.startswith("OK"):
+            x = float(num.dec(t[2]))
+            neg_zero = t[2].startswith("-0:")
+            if t[1] == "f64":
+                up, down = math.nextafter(x, math.inf), math.nextafter(x, -math.inf)
+            else:
+                def step(v, direction):
+                    if v == 0.0:
+                        tiny = struct.unpack("f", struct.pack("I", 1))[0]
+                        return tiny if direction > 0 else -tiny
+                    bits = struct.unpack("I", struct.pack("f", v))[0]
+                    bits = bits + 1 if (v > 0) == (direction > 0) else bits - 1
+                    return struct.unpack("f", struct.pack("I", bits))[0]
+                up, down = step(x, 1), step(x, -1)
+            want = "OK %s %s" % (num.enc(up).replace("-0:0", "0:0"), num.enc(down).replace("-0:0", "0:0"))
+            if impl != want:
+                out.append((k, "nextafter(%s%s) gave %s, IEEE-754 neighbours are %s" % ("-0.0 = " if neg_zero else "", t[2], impl[3:], want[3:])))
+    return out
+
+
 def c16_box_oracle(case):
     """containment clause of C16 for every pair (floats included): all events created by the pairwise step
     lie in the bounding boxes of both segments"""
@@ -660,51 +747,63 @@ def c18_stack(tier):
     findings = []
     rows = []
     big = 3000000
-    scenarios = []
-    for order in ("mono", "rev", "zigzag", "rand"):
-        for what in ("drop", "clear", "partial", "full", "fullback", "query"):
-            scenarios.append(("%s-%s" % (order, what), big))
-    scenarios.append(("mono-setdrop", big))
-    scenarios.append(("x-sweep", 200000 if tier == "quick" else 500000))
-    if tier == "quick":
-        scenarios = [s for s in scenarios if s[0].split("-")[0] in ("mono", "zigzag", "x") or s[0].endswith("drop")]
+    orders = ["mono", "rev", "zigzag", "rand", "revtop", "monobot", "blocks"]
+    teardowns = ["drop", "clear", "partial", "full", "fullback", "query"]
     jobs = []
-    for name, n in scenarios:
-        jobs.append((name, n, False))
-        if name.endswith("drop") or name.endswith("partial") or name == "x-sweep":
+    if tier == "quick":
+        combos = [(o, t) for o in orders for t in ("drop", "clear", "partial")] + [("mono", "full"), ("rev", "fullback"), ("zigzag", "query"), ("blocks", "full")]
+    else:
+        combos = [(o, t) for o in orders for t in teardowns]
+    for o, t in combos:
+        name = "%s-%s" % (o, t)
+        jobs.append((name, big, False))
+        jobs.append((name, big, True))
+        # a size sweep on the small stack: a teardown that recurses only below some size threshold, or only
+        # up to some depth, shows in a window of sizes
+        for n in ((1000, 30000, 100000, 130000, 400000) if t in ("drop", "clear", "partial") else (1000,)):
             jobs.append((name, n, True))
-        jobs.append((name, 1000, False))
+    jobs.append(("mono-setdrop", big, True))
+    for n in ((1000, 20000, 50000, 200000) if tier == "quick" else (1000, 10000, 20000, 50000, 100000, 200000, 500000)):
+        jobs.append(("x-sweep", n, True))
+        jobs.append(("x-sweepdesc", n, True))
+        jobs.append(("x-sweepdesc", n, False))
     from concurrent.futures import ThreadPoolExecutor
     def run(j):
         name, n, thr = j
         args = [runner.harness_bin(False), "stack", name, str(n)] + (["thread"] if thr else [])
         rc, out, err = _child(args, 900)
         return j, rc, out, err
-    depth = {}
-    with ThreadPoolExecutor(max_workers=6) as ex:
+    with ThreadPoolExecutor(max_workers=12) as ex:
         for (name, n, thr), rc, out, err in ex.map(run, jobs):
             m = re.search(r"DONE \S+ \d+ depths=(\d+)\.\.(\d+)", out)
             span = (int(m.group(2)) - int(m.group(1))) if m else None
             rows.append({"scenario": name, "n": n, "thread_2MiB": thr, "exit": rc, "drop_depth_span_bytes": span})
             if rc != 0 or "DONE" not in out:
                 findings.append(_F("O", "stack: scenario %s n=%d%s ended with exit status %s (%s)" % (name, n, " on a 2 MiB thread" if thr else "", rc, err.strip()[-120:])))
-            elif span is not None:
-                depth[(name, n, thr)] = span
-    # the stack depth at which keys are dropped must not grow with the number of keys
-    for (name, n, thr), span in depth.items():
-        small = depth.get((name, 1000, False))
-        if n > 1000 and small is not None and span > small + 4096:
-            findings.append(_F("O", "stack: scenario %s uses stack growing with size: depth span %d bytes at n=%d vs %d at n=1000" % (name, span, n, small)))
+            elif span is not None and span > 2048:
+                # an iterative teardown drops every key at the same stack depth; recursion shows as a span
+                findings.append(_F("O", "stack: scenario %s n=%d drops keys over a stack depth range of %d bytes: the teardown recurses" % (name, n, span)))
     return findings, {"stack_scenarios": rows, "samples": [{"scenario": r["scenario"], "n": r["n"], "exit": r["exit"]} for r in rows[:3]]}
 
 
 def c03_large_children(tier):
+    """large valid inputs in child processes (an abort or stack overflow kills the process): sweeps that break
+    early with a populated sweep line, built in increasing and in decreasing sweep-line order"""
     findings = []
-    n = 100000 if tier == "quick" else 500000
-    rc, out, err = _child([runner.harness_bin(False), "stack", "x-sweep", str(n)], 1800)
-    if rc != 0 or "DONE" not in out:
-        findings.append(_F("O", "large input: boolean operation on %d teeth ended with exit status %s (%s)" % (n, rc, err.strip()[-120:])))
-    return findings, {"large_child": {"teeth": n, "exit": rc}}
+    rows = []
+    sizes = (20000, 100000) if tier == "quick" else (10000, 20000, 50000, 100000, 200000, 500000)
+    jobs = [(sc, n, thr) for sc in ("x-sweep", "x-sweepdesc") for n in sizes for thr in (False, True)]
+    from concurrent.futures import ThreadPoolExecutor
+    def run(j):
+        sc, n, thr = j
+        return j, _child([runner.harness_bin(False), "stack", sc, str(n)] + (["thread"] if thr else []), 1800)
+    with ThreadPoolExecutor(max_workers=8) as ex:
+        for (sc, n, thr), (rc, out, err) in ex.map(run, jobs):
+            rows.append({"scenario": sc, "teeth": n, "thread_2MiB": thr, "exit": rc})
+            if rc != 0 or "DONE" not in out:
+                findings.append(_F("O", "large input: boolean operation %s with %d teeth%s ended with exit status %s (%s)" % (
+                    sc, n, " on a 2 MiB thread" if thr else "", rc, err.strip()[-120:])))
+    return findings, {"large_children": rows}
 
 
 # ---------------------------------------------------------------------------------------------
